@@ -97,7 +97,7 @@ pub fn fz_open(data: &[u8], info: &mut FuzzInfo) -> Option<FuzzFailure> {
     let aad = Bytes(take(&mut u, 40));
     let ct = Bytes(u.take_rest().to_vec());
     let pos = if s1 & 0x10 != 0 && enc.is_none() && pk_s.is_none() { Some(u64::MAX - (s0 % 3) as u64) } else { None };
-    let c = c13::Case::Receiver { sess, enc, pk_s, ct, aad, tag, pos };
+    let c = c13::Case::Receiver { sess, enc, pk_s, ct, aad, tag, pos, enc_rel: if s1 & 0x80 != 0 { 1 + s0 % 5 } else { 0 } };
     run(&c13::P, &c, info)
 }
 
